@@ -69,13 +69,14 @@ func vhsrvRunFixedOpt(reqs []vhsrvReq, seed int64, wga bool) vhsrvHist {
 		}
 		if q.FaultAns != nil {
 			w.b.mu.Lock()
-			w.b.faultArmed, w.b.faultCall, w.b.faultAns = true, q.FaultCall, *q.FaultAns
+			w.b.faultArmed, w.b.faultCall, w.b.faultAns, w.b.faultMeth = true, q.FaultCall, *q.FaultAns, q.FaultMeth
 			w.b.mu.Unlock()
 			h.Fault = map[string]int{"step": len(h.Steps), "call": q.FaultCall, "panic": map[bool]int{false: 0, true: 1}[q.FaultAns.Panic]}
 		}
 		st, err := w.do(q)
 		w.b.mu.Lock()
 		w.b.faultArmed = false
+		w.b.faultMeth = 0
 		w.b.mu.Unlock()
 		if err != nil {
 			h.Broken = fmt.Sprintf("%v on request %+v", err, q)
@@ -83,6 +84,10 @@ func vhsrvRunFixedOpt(reqs []vhsrvReq, seed int64, wga bool) vhsrvHist {
 		}
 		if !probing {
 			h.Steps = append(h.Steps, st)
+		} else if st.RT == int(msgRlerror) && st.Errno == uint64(linux_EFAULT_vhsrv) && q.FaultAns == nil && q.T != "Tread" {
+			// no fault was injected into this request, yet the server panicked while handling it
+			h.Broken = fmt.Sprintf("after the injected fault an unrelated later request was answered EFAULT (server-side panic): %+v", q)
+			return h
 		}
 		if st.Reduced {
 			probing = true // the model cannot follow; the remaining requests only probe for a reply
